@@ -8,7 +8,7 @@ from ..engine import SCHED, SEQ, Engine
 from ..model import AnalysisError, dotted, norm
 from ..report import Report
 from .. import sym
-from .symutil import S, all_of, any_lit, arg, has, is_, mentions, sh
+from .symutil import S, all_of, any_lit, arg, has, is_, mentions, sh, unobj
 
 EXPLANATION = (
     "FLOW/PASS over the phase-reference bookkeeping: _PhaseTracker._format is `phi % (2*pi)` and is applied at every write of the phase list (constructor and __setitem__); increment_phase writes "
@@ -99,7 +99,7 @@ def run(E: Engine, rep: Report, tier: str) -> dict:
 
     pr = arg(c_v[-1], 2, "phase_ref")
     m = has(pr, "Q_c.pop()")
-    rep.check(m is not None and ref_comp(m["Q_c"], "last_phase"), "FLOW", "Sequence._add|phase_ref-from-targets-last_phase", "phase_ref = last_phase of the targets of the channel's last slot (in the channel's basis)", f"phase_ref is no longer the common last_phase of the last slot's targets in the channel's basis: {sh(pr, 220)}", E.where(add, c_v[-1].node))
+    rep.check(m is not None and ref_comp(unobj(m["Q_c"]), "last_phase"), "FLOW", "Sequence._add|phase_ref-from-targets-last_phase", "phase_ref = last_phase of the targets of the channel's last slot (in the channel's basis)", f"phase_ref is no longer the common last_phase of the last slot's targets in the channel's basis: {sh(pr, 220)}", E.where(add, c_v[-1].node))
     # inside _validate_and_adjust_pulse: returned pulse phase = pulse.phase + phase_ref
     rv = S(E, vadj).ret
     pulses = [c for c in sym.subterms(rv) if c[0] == "call" and c[1] == ("name", "Pulse")]
@@ -155,7 +155,7 @@ def run(E: Engine, rep: Report, tier: str) -> dict:
         ok = bool(calls)
         for l in calls:
             m = any_lit(l, "len(Q_c) == 1")
-            ok = ok and m is not None and m["Q_c"][0] == "comp" and mentions(m["Q_c"][2], "last_phase")
+            ok = ok and m is not None and unobj(m["Q_c"])[0] == "comp" and mentions(unobj(m["Q_c"])[2], "last_phase")
         rep.check(ok, "GUARD", f"{f.short}|single-phase-reference", "targets with different phase references are rejected", f"{f.short} no longer rejects targets with different phase references before scheduling", E.where(f))
     # Pulse.__init__ modulo
     pin = E.fn("pulser.pulse.Pulse.__init__")
